@@ -327,7 +327,7 @@ pub fn ws_lockstep_case(rt: &tokio::runtime::Runtime, compressed: bool, rounds: 
                 let mut m = vec![]; let mut kas = 0; for j in 0..37usize { if (j * j + done) % 3 == 0 { m.extend_from_slice(&raw_frame(compressed, 3, j as u8 + 1, &[0])); } else { m.extend_from_slice(&ka2); kas += 1; } }
                 if tx.send(Message::Binary(m)).await.is_err() { break; }
                 sent += kas;
-                while replies < sent { match tokio::time::timeout(Duration::from_millis(1500), rx.next()).await { Ok(Some(Ok(Message::Binary(b)))) => { replies += b.len() / ka2.len().max(1); }, Ok(Some(Ok(_))) => {}, _ => break 'rounds } }
+                while replies < sent { match tokio::time::timeout(Duration::from_millis(8000), rx.next()).await { Ok(Some(Ok(Message::Binary(b)))) => { replies += b.len() / ka2.len().max(1); }, Ok(Some(Ok(_))) => {}, _ => break 'rounds } }
                 done += 1;
             }
             let _ = tx.close().await;
